@@ -459,8 +459,10 @@ def c17(prop, tier, replay):
 # ----------------------------------------------------------------------------------------
 # reader family (C03 C09 C12 C15 C18): spec-rendered files -> real reader -> Trace_Read
 
-def gen_mc(spec, cfg, wd, tier, timeout=3000, need_actions=()):
-    r = tlc_mc(spec, cfg, wd, workers=8 if tier == "quick" else 14, timeout=timeout)
+def gen_mc(spec, cfg, wd, tier, timeout=3000, need_actions=(), coverage=True):
+    r = tlc_mc(spec, cfg, wd, workers=8 if tier == "quick" else 14, timeout=timeout, coverage=coverage)
+    if not coverage:
+        need_actions = ()
     if r["violated"]:
         raise ToolError("model %s violates %s:\n%s" % (cfg, r["violated"], r["tail"][-2500:]))
     if not r["ok"]:
@@ -573,3 +575,56 @@ def c09(prop, tier, replay):
                 "specification; distinct = distinct file bytes; non-trivial = more than one fragment or track",
                 sum(1 for c in cases if c["info"]["nfrag"] > 1 or c["info"]["ntracks"] > 1),
                 {"distinct_files": distinct_files(cases), "exhaustive": True})
+
+
+def layout_cases(mcs, name):
+    seen, cases = set(), []
+    for c in mcs:
+        h = hashlib.sha1(bytes(c["file"])).hexdigest()
+        if h in seen:
+            continue
+        seen.add(h)
+        cases.append({"id": "%s-%d" % (name, len(cases)), "prop": "C12", "file": c["file"], "expect_ok": True,
+                      "ops": c["ops"], "base": c["base"]})
+    return cases
+
+
+def sim_mc(spec, cfg, wd, num, timeout=1800):
+    r = tlc_mc(spec, cfg, wd, workers=8, timeout=timeout, simulate="num=%d" % num, coverage=False)
+    if r["violated"]:
+        raise ToolError("model %s violates %s (simulation):\n%s" % (cfg, r["violated"], r["tail"][-2500:]))
+    st = {"cfg": cfg + " (simulate num=%d)" % num, "states": max(r["states"], len(r["cases"])), "distinct": max(r["distinct"], len(r["cases"])),
+          "depth": r["depth"], "cases": len(r["cases"]), "actions": r["actions"], "wall": round(r["wall"], 1)}
+    return st, r["cases"]
+
+
+@check("C12")
+def c12(prop, tier, replay):
+    t0 = time.time()
+    wd = workdir(prop + "-" + tier)
+    known = load_known()
+    if replay:
+        cases = [json.load(open(replay))]
+        res = validate_sharded("Trace_Read", cases, wd, "replay", 1, runner="read-run")
+        report_read(prop, tier, res, cases, [], t0, known, "model_checking", "replay", 2)
+        return
+    stats, cases = [], []
+    for b in ("plain", "frag", "meta"):
+        if not os.path.exists(os.path.join(SPEC, "MC_Layout_%s1.cfg" % b)):
+            continue
+        st, mcs = gen_mc("MC_Layout", "MC_Layout_%s1" % b, wd, tier, coverage=False)
+        kinds = {o["op"] for c in mcs for o in c["ops"]}
+        if not {"free", "unk", "swap", "large", "spare"} <= kinds:
+            raise ToolError("vacuity: layout operation kinds %s never applied in %s" % ({"free", "unk", "swap", "large", "spare"} - kinds, b))
+        stats.append(st)
+        cases += layout_cases(mcs, "ly1" + b)
+        st, mcs = sim_mc("MC_Layout", "MC_Layout_%s3" % b, wd, 250 if tier == "quick" else 6000)
+        stats.append(st)
+        cases += layout_cases(mcs, "lyN" + b)
+    res = validate_sharded("Trace_Read", cases, wd, "layout", 6 if tier == "quick" else 16, runner="read-run")
+    report_read(prop, tier, res, cases, stats, t0, known, "model_checking",
+                "physical layouts of fixed logical movies (2-track sample-table movie, fragmented movie, movie with metadata): every single "
+                "applicable layout operation (free/unknown insertion at every position of every iterating container, sibling swaps, 64-bit "
+                "headers, spare bytes) exhaustively, and seeded random sequences of up to 3 operations; distinct = distinct file bytes; "
+                "non-trivial = at least one operation applied",
+                sum(1 for c in cases if len(c["ops"]) >= 1), {"distinct_files": distinct_files(cases)})
